@@ -74,16 +74,18 @@ type Req struct {
 
 // Resp is one line on the child's stdout.
 type Resp struct {
-	Ready bool     `json:"ready,omitempty"`
-	Init  bool     `json:"init,omitempty"` // the metadata store was initialised (fresh) rather than loaded
-	Err   string   `json:"err,omitempty"`
-	S     int      `json:"s,omitempty"`
-	B     []byte   `json:"b,omitempty"`
-	Panic bool     `json:"panic,omitempty"`
-	Meta  int      `json:"meta,omitempty"`
-	Data  int      `json:"data,omitempty"`
-	Trace []string `json:"trace,omitempty"`
-	N     uint64   `json:"n,omitempty"` // iid / mutid result
+	Ready    bool     `json:"ready,omitempty"`
+	Init     bool     `json:"init,omitempty"` // the metadata store was initialised (fresh) rather than loaded
+	Err      string   `json:"err,omitempty"`
+	S        int      `json:"s,omitempty"`
+	B        []byte   `json:"b,omitempty"`
+	Panic    bool     `json:"panic,omitempty"`
+	Meta     int      `json:"meta,omitempty"`
+	Data     int      `json:"data,omitempty"`
+	Trace    []string `json:"trace,omitempty"`
+	N        uint64   `json:"n,omitempty"`        // iid / mutid result
+	MetaDone int      `json:"metadone,omitempty"` // writes whose store call has returned
+	DataDone int      `json:"datadone,omitempty"`
 }
 
 // MaybeChild turns the process into the child server when it was started with the marker.
@@ -185,7 +187,8 @@ func Main(args []string) {
 					say(doHTTP(rq))
 				case "writes":
 					m, d, tr := crashkv.Counts()
-					say(Resp{Meta: m, Data: d, Trace: tr})
+					md, dd := crashkv.Done()
+					say(Resp{Meta: m, Data: d, Trace: tr, MetaDone: md, DataDone: dd})
 				case "sleep":
 					time.Sleep(time.Duration(rq.Ms) * time.Millisecond)
 					say(Resp{S: 200})
